@@ -7,7 +7,7 @@ from typing import ClassVar, Literal
 
 import bcrypt
 
-from libpass._utils.bytes import StrOrBytes, as_bytes, as_str
+from libpass._utils.bytes import StrOrBytes, as_bytes, as_str, hash_as_str
 from libpass.errors import Panic
 from libpass.hashers.abc import PasswordHasher
 from libpass.inspect.bcrypt import (
@@ -57,10 +57,10 @@ class BcryptHasher(PasswordHasher):
         )
 
     def identify(self, hash: StrOrBytes) -> bool:
-        return inspect_bcrypt_hash(as_str(hash)) is not None
+        return inspect_bcrypt_hash(hash_as_str(hash)) is not None
 
     def needs_update(self, hash: StrOrBytes) -> bool:
-        info = inspect_bcrypt_hash(as_str(hash))
+        info = inspect_bcrypt_hash(hash_as_str(hash))
         if info is None:
             return True
         return info.rounds != self._rounds
@@ -99,7 +99,7 @@ class BcryptSHA256Hasher(PasswordHasher):
 
     @classmethod
     def _inspect(cls, hash: StrOrBytes) -> BcryptSHA256PHCV2 | None:
-        info = inspect_phc(as_str(hash), BcryptSHA256PHCV2)
+        info = inspect_phc(hash_as_str(hash), BcryptSHA256PHCV2)
         if info is None or info.version_ != 2:
             # only version 2 (hmac-sha256 pre-hash) of the format is implemented here
             return None
